@@ -10,14 +10,19 @@ RULE = ("cells = maximal behaviours of CryptoBinding.tla for the scheme (every t
         "(scheme, plen, ops) tuples")
 
 
-def write_cfg(ctx, scheme, max_tamper, plens, model="tuple", emit=True):
-    """Thorough-tier / self-test configs are generated into the work dir (constants only differ)."""
-    name = "MC_CryptoBinding_%s_%s_%d.cfg" % (scheme, model, max_tamper)
+SCHEMES = {"cmdsig": ["cmdsig"], "wrap": ["wrap"], "afcuni": ["afcuni"],
+           "enc": ["groupkey", "sealedgk", "pskseed", "topicmsg", "sealedtopic"]}
+
+
+def write_cfg(ctx, group, max_tamper, plens, model="tuple", emit=True):
+    """Thorough-tier configs are generated into the work dir (only constants differ from tla/MC_*.cfg)."""
+    name = "MC_CryptoBinding_%s_%s_%d.cfg" % (group, model, max_tamper)
     path = os.path.join(ctx.workdir, name)
     with open(path, "w") as f:
-        f.write("SPECIFICATION Spec\nCONSTANTS\n  Scheme = \"%s\"\n  MaxTamper = %d\n  HashModel = \"%s\"\n"
+        f.write("SPECIFICATION Spec\nCONSTANTS\n  Schemes = {%s}\n  MaxTamper = %d\n  HashModel = \"%s\"\n"
                 "  PLens = {%s}\nINVARIANTS AcceptIffUnchanged IdAgreement%s\nCHECK_DEADLOCK FALSE\n"
-                % (scheme, max_tamper, model, ", ".join(str(p) for p in plens), " Emit" if emit else ""))
+                % (", ".join('"%s"' % s for s in SCHEMES[group]), max_tamper, model,
+                   ", ".join(str(p) for p in plens), " Emit" if emit else ""))
     return os.path.relpath(path, verif.TLA)
 
 
@@ -28,9 +33,21 @@ def cells_for(ctx, scheme, plens=(0,), thorough_depth=3):
     else:
         cfg = "MC_CryptoBinding_%s.cfg" % scheme
     r = ctx.tlc("CryptoBinding", cfg, timeout=1500, tag="cb-" + scheme)
+    # `\E o \in Ops : Tamper(o)` has a state-dependent bound, so TLC reports it as a sub-action of Next
+    # (line form `<Next line .. of module M (l c l c)>: d:g`, which the library's parser skips).
+    if "Tamper" not in r.coverage:
+        import re
+        m = re.search(r"^<Next line [^>]*\(\d+ \d+ \d+ \d+\)>: (\d+):(\d+)", r.output, re.M)
+        if m:
+            r.coverage["Tamper"] = (int(m.group(1)), int(m.group(2)))
     ctx.require_actions(r, ["Tamper", "Check"])
+    if not any(b["ops"] for b in r.replays):
+        raise verif.ToolError("vacuous model run: no tamper step in any cell")
     if not r.replays:
         raise verif.ToolError("TLC emitted no cells for scheme " + scheme)
+    for sch in SCHEMES[scheme]:
+        if not any(b["scheme"] == sch for b in r.replays):
+            raise verif.ToolError("vacuous enumeration: no cell of scheme " + sch)
     if not any(b["accept"] for b in r.replays) or not any(not b["accept"] for b in r.replays):
         raise verif.ToolError("vacuous enumeration: accepting or rejecting cells missing for " + scheme)
     return r.replays
